@@ -47,3 +47,5 @@ let check_C13 = check_with true oracle_C13
 let check_C19 fields =
   (* lock-step cases are also judged by the per-message discipline (Terminate rule) *)
   check_with false (fun sc log -> oracle_C19 sc log && (not (is_lock fields) || oracle_turns sc log)) fields
+let check_C02 = check_with false (fun _ _ -> true)   (* the oracle is the strict grammar itself: an unparsable output is an oracle failure *)
+let check_C15 = check_with true oracle_turns
